@@ -13,6 +13,10 @@ func init() {
 // a StatelessOperators slice that has spare capacity (an in-place append by the
 // library would be a visible write into the caller's array).
 func vfC08Config(w *vfWorld, opts string, shape string) *Config {
+	return vfC08ConfigTagged(w, opts, shape, "")
+}
+
+func vfC08ConfigTagged(w *vfWorld, opts string, shape string, tag string) *Config {
 	conf := w.config("keys", opts)
 	// two operators are enough here (every extra map entry multiplies the iteration orders), unless the shape calls them
 	if !strings.Contains(shape, "(z)") {
@@ -21,13 +25,15 @@ func vfC08Config(w *vfWorld, opts string, shape string) *Config {
 	if !strings.Contains(shape, "(y)") {
 		delete(conf.OperatorMap, "y")
 	}
-	conf.ConstantMap["EXTRA"] = vfInt64("const.EXTRA")
-	conf.CostsMap["variable"] = vfCost("cost.variable")
+	conf.ConstantMap["EXTRA"] = vfInt64("const.EXTRA" + tag)
+	conf.CostsMap["variable"] = vfCost("cost.variable" + tag)
 	if len(w.order) > 0 {
-		conf.CostsMap[w.order[0]] = vfCost("cost.first")
+		conf.CostsMap[w.order[0]] = vfCost("cost.first" + tag)
 	}
-	so := make([]string, 1, 4)
-	so[0] = "p"
+	// a name that is not registered comes first: the library has to skip it without disturbing the list
+	so := make([]string, 2, 4)
+	so[0] = "absent"
+	so[1] = "p"
 	conf.StatelessOperators = so
 	return conf
 }
@@ -36,6 +42,8 @@ func vfC08Config(w *vfWorld, opts string, shape string) *Config {
 //
 //	"frozen": the caller's config is frozen; Compile (successful or failing) must not
 //	          write into it nor into a package variable.
+//	"cross":  compilations with two configs that use the same names for other things, alternating:
+//	          neither influences what the other returns.
 //	"order":  the same source compiled again under every iteration order of the config
 //	          maps (Go leaves map order unspecified) and after other compilations gives
 //	          the same Dump / DumpTable and the same Eval result on a shared binding.
@@ -62,7 +70,35 @@ func VerifC08(args []string) {
 		vfAssert(vfFrozenWrites() == 0, "Compile wrote into the caller's Config")
 		vfAssert(vfGlobalWrites() == 0, "Compile wrote a package variable")
 		vfAssert(len(conf.CompileOptions) == nOpts && len(conf.ConstantMap) == nConst, "Compile changed the size of a caller-owned map")
-		vfAssert(len(conf.StatelessOperators) == 1 && cap(conf.StatelessOperators) == 4 && conf.StatelessOperators[:4][1] == "", "Compile appended into the caller's StatelessOperators array")
+		vfAssert(len(conf.StatelessOperators) == 2 && cap(conf.StatelessOperators) == 4 && conf.StatelessOperators[:4][2] == "", "Compile appended into the caller's StatelessOperators array")
+		vfAssert(conf.StatelessOperators[0] == "absent" && conf.StatelessOperators[1] == "p", "Compile rewrote the caller's StatelessOperators")
+		return
+	}
+	if variant == "cross" {
+		// a second config with the same names and other contents: p is another function there and is
+		// not declared stateless, the constants have other values. What Compile returns for it must
+		// not depend on a compilation with the first config having happened in between.
+		other := vfC08ConfigTagged(w, opts, shape, ".other")
+		other.StatelessOperators = nil
+		inner := other.OperatorMap["p"]
+		other.OperatorMap["p"] = func(c *Ctx, ps []Value) (Value, error) { return inner(c, ps) }
+		for k, v := range other.ConstantMap {
+			if iv, ok := v.(int64); ok {
+				other.ConstantMap[k] = iv + 1
+			}
+		}
+		e1, err1 := Compile(other, src)
+		vfAssert(err1 == nil && e1 != nil, "source compiles")
+		d1, t1 := Dump(e1), DumpTable(e1, false)
+		ea, erra := Compile(conf, src)
+		vfAssert(erra == nil && ea != nil, "source compiles under the first config")
+		da := Dump(ea)
+		e2, err2 := Compile(other, src)
+		vfAssert(err2 == nil && e2 != nil, "source compiles again")
+		ea2, _ := Compile(conf, src)
+		vfReach("cross")
+		vfAssert(Dump(e2) == d1 && DumpTable(e2, false) == t1, "a compilation with another config changed what Compile returns for this one")
+		vfAssert(ea2 != nil && Dump(ea2) == da, "a compilation with another config changed what Compile returns for the first one")
 		return
 	}
 	// determinism
@@ -144,5 +180,5 @@ func VerifC08Copy(args []string) {
 	cp.StatelessOperators = append(cp.StatelessOperators, "x", "y")
 	GetOrRegisterKey(cp, "another")
 	vfAssert(vfFrozenWrites() == 0, "mutating the copy wrote into the source config")
-	vfAssert(src.StatelessOperators[0] == "p" && len(src.ConstantMap) == 2 && src.CompileOptions[Reordering] == false, "mutating the copy changed the source config")
+	vfAssert(src.StatelessOperators[0] == "absent" && src.StatelessOperators[1] == "p" && len(src.ConstantMap) == 2 && src.CompileOptions[Reordering] == false, "mutating the copy changed the source config")
 }
